@@ -31,6 +31,8 @@ type c01CliScenario struct {
 
 type c01CliEngine struct{}
 
+var lastC01CliDigest string
+
 func (c01CliEngine) Meta() core.Meta {
 	return core.Meta{
 		Property: "C01",
@@ -55,6 +57,11 @@ func (c01CliEngine) Runs(tier string) int {
 
 func (c01CliEngine) exec(sc *c01CliScenario, res *core.Result) []core.Violation {
 	var vs []core.Violation
+	defer func() {
+		if simos.W != nil {
+			lastC01CliDigest = simos.W.Log.Digest()
+		}
+	}()
 	violate := func(class, sig, detail string) {
 		b, _ := json.Marshal(sc)
 		vs = append(vs, core.Violation{Class: class, Signature: sig, Detail: detail, Scenario: b})
@@ -184,7 +191,7 @@ func (e c01CliEngine) Replay(raw json.RawMessage) ([]core.Violation, string, err
 	}
 	res := &core.Result{Probes: map[string]int{}, Faults: map[string]int{}, Extended: map[string]int{}}
 	vs := e.exec(&sc, res)
-	return vs, "", nil
+	return vs, lastC01CliDigest, nil
 }
 
 func (c01CliEngine) Candidates(raw json.RawMessage) []json.RawMessage {
